@@ -74,3 +74,24 @@ pub fn vx_range_collect(lo: usize, hi: usize) -> (v: Vec<usize>)
     }
     v
 }
+
+// `v.iter().map(f).collect()` is rendered as a call to this function (body verified here)
+pub fn vx_iter_map_collect<A, T, F: Fn(&A) -> T>(v: &Vec<A>, f: F) -> (r: Vec<T>)
+    requires forall|i: int| 0 <= i < v@.len() ==> call_requires(f, (&#[trigger] v@[i],)),
+    ensures r@.len() == v@.len(),
+        forall|i: int| 0 <= i < v@.len() ==> call_ensures(f, (&v@[i],), #[trigger] r@[i]),
+{
+    let mut r: Vec<T> = Vec::new();
+    let mut i: usize = 0;
+    while i < v.len()
+        invariant i <= v@.len(), r@.len() == i,
+            forall|j: int| 0 <= j < v@.len() ==> call_requires(f, (&#[trigger] v@[j],)),
+            forall|j: int| 0 <= j < i ==> call_ensures(f, (&v@[j],), #[trigger] r@[j]),
+        decreases v@.len() - i,
+    {
+        let x = f(&v[i]);
+        r.push(x);
+        i += 1;
+    }
+    r
+}
